@@ -117,6 +117,7 @@ def check_commit_discipline(prog, rep, prop="C06"):
                     rep.undecided("COMMIT-B", fi.short, "no DML", "write method without a DML statement or a delegation the analysis recognises", fi.loc())
 
     # (c) conditional_commit
+    check_conditional_commit_paths(prog, rep)
     check_conditional_commit(prog, rep)
     # (d) commit
     fi = cls.methods.get("commit")
@@ -212,6 +213,106 @@ def _rows_built_from(fi, rows_var, src_var):
     return False
 
 
+def cc_cases(prog):
+    """path summaries of conditional_commit, once per mode (lazy / not lazy).  Attributes the constructor derives from its
+    enable_lazy_commit parameter (`self.x = A if enable_lazy_commit else B`) take their value of that mode; in the non-lazy
+    mode the counter is 0 on entry (every call commits).  -> {mode: (summaries, unresolved attribute names)}"""
+    from .affine import Form, State
+    from .paths import summarize
+
+    cls = prog.cls("SqliteStorage")
+    fi = cls.methods.get("conditional_commit")
+    init = cls.methods.get("__init__")
+    if fi is None or init is None:
+        raise AnalysisError("anchor vanished: SqliteStorage.conditional_commit / __init__")
+    used = {n.attr for n in ast.walk(fi.node) if isinstance(n, ast.Attribute) and isinstance(n.value, ast.Name) and n.value.id == "self" and isinstance(n.ctx, ast.Load)}
+    used -= {"enable_lazy_commit", "num_uncommitted_statements", "last_commit", "conn", "commit", "logger"}
+    out = {}
+    for lazy in (True, False):
+        vals, unresolved = {}, []
+        for a in sorted(used):
+            defs = [n for m in cls.methods.values() for n in walk_own(m.node) if isinstance(n, (ast.Assign, ast.AnnAssign, ast.AugAssign)) and any(norm(t) == f"self.{a}" for t in (n.targets if isinstance(n, ast.Assign) else [n.target]))]
+            v = defs[0].value if len(defs) == 1 and any(defs[0] is x for x in walk_own(init.node)) and not isinstance(defs[0], ast.AugAssign) else None
+            if isinstance(v, ast.IfExp):
+                t = norm(v.test)
+                if t in ("enable_lazy_commit", "self.enable_lazy_commit"):
+                    v = v.body if lazy else v.orelse
+                elif t in ("not enable_lazy_commit", "not self.enable_lazy_commit"):
+                    v = v.orelse if lazy else v.body
+            try:
+                f = lin(v, Env(init, prog)) if v is not None else None
+            except NonAffine:
+                f = None
+            if f is not None and f.is_const():
+                vals[f"self.{a}"] = f
+            else:
+                unresolved.append(a)
+        if not lazy:
+            vals["self.num_uncommitted_statements"] = Form(const=0)
+        sums, _ = summarize(fi, env=Env(fi, prog, inline_locals=True), init_state=State(vals), dnf=True)
+        keep = [ps for ps in sums if ("self.enable_lazy_commit", not lazy) not in ps.opaque and ("not self.enable_lazy_commit", lazy) not in ps.opaque]
+        out[lazy] = (keep, unresolved)
+    return fi, out
+
+
+def _commits(ps):
+    return any(norm(c.func) == "self.commit" for c in ps.calls)
+
+
+def _path_text(ps):
+    return "; ".join(sorted(f"{'' if p else 'not '}{t}" for t, p in ps.opaque) + sorted(repr(l) for l in ps.lits))[:200]
+
+
+def check_conditional_commit_paths(prog, rep):
+    """COMMIT-C decided per path, whatever the shape of conditional_commit: see the rule text."""
+    from .affine import Form, Lit, infeasible, normalize_lits
+
+    rep.rule("COMMIT-C", "conditional_commit, per path and per mode: (not lazy) every path commits; (lazy) a path that does not commit has added exactly its argument to the counter and carries a condition that bounds the new counter value by 60; the mode-dependent attributes the constructor derives from enable_lazy_commit are replaced by their value in that mode")
+    fi, cases = cc_cases(prog)
+    N, n = Form.atom("self.num_uncommitted_statements"), Form.atom(fi.params[1])
+    for lazy, (sums, unresolved) in cases.items():
+        rep.unit("paths", f"conditional_commit [{'lazy' if lazy else 'not lazy'}]: {len(sums)} paths")
+        for ps in sums:
+            if ps.kind == "raise" or _commits(ps):
+                continue
+            if ps.undecided:
+                rep.undecided("COMMIT-C", fi.short, "path", f"{ps.undecided[0]}", fi.loc())
+                continue
+            if not lazy:
+                # feasible only if some call with at least one statement can take it
+                if infeasible(normalize_lits(set(ps.lits) | {Lit(Form(const=1) - n, "<=")})):
+                    continue
+                rep.violation("COMMIT-C", fi.short, "non-lazy mode", f"with lazy committing switched off a call can return without committing (path: {_path_text(ps)}): an acknowledged write is lost by a crash although the store was asked to commit every write", fi.loc(ps.stmts[-1]) if ps.stmts else fi.loc(), found=ps.describe())
+                continue
+            new = ps.state.vals.get("self.num_uncommitted_statements")
+            if new is None:
+                rep.violation("COMMIT-C", fi.short, "counter increment", f"a path through the lazy mode returns without committing and without counting its statements (path: {_path_text(ps)}): the counter under-counts and the uncommitted tail is unbounded", fi.loc(ps.stmts[-1]) if ps.stmts else fi.loc(), found=ps.describe())
+                continue
+            if not (new - N - n).is_const() or (new - N - n).const != 0:
+                rep.violation("COMMIT-C", fi.short, "counter increment", f"the counter goes from N to {new!r} on a path that does not commit, not to N + {fi.params[1]}: it does not count the statements written", fi.loc(), expected=f"N + {fi.params[1]}", found=repr(new))
+                continue
+            bounded = infeasible(normalize_lits(set(ps.lits) | {Lit(Form(const=60) - new, "<")}))
+            if not bounded and unresolved and any(f"self.{a}" in l.form.atoms() for l in ps.lits for a in unresolved):
+                rep.undecided("COMMIT-C", fi.short, "threshold", f"the count test uses self.{unresolved[0]}, whose value the analysis cannot resolve", fi.loc())
+                continue
+            rep.check(bounded, "COMMIT-C", fi.short, "returns without committing only under the count bound", "path condition implies counter <= 60", f"a path returns without committing and nothing on it bounds the counter by 'a few dozen' (path: {_path_text(ps)}; counter afterwards {new!r}): more acknowledged writes than that can be lost by a crash", fi.loc(ps.stmts[-1]) if ps.stmts else fi.loc(), found=ps.describe())
+    rep.floor("conditional_commit paths (both modes)", sum(len(v[0]) for v in cases.values()), 3)
+
+
+def check_age_paths(prog, rep):
+    """AGE decided per path: a lazy-mode path that returns without committing knows that the last commit is recent."""
+    from .affine import Form, Lit, infeasible, normalize_lits
+
+    fi, cases = cc_cases(prog)
+    sums, _ = cases[True]
+    age = Form.atom(CLOCK) - Form.atom("self.last_commit")
+    for ps in sums:
+        if ps.kind == "raise" or _commits(ps) or ps.undecided:
+            continue
+        recent = infeasible(normalize_lits(set(ps.lits) | {Lit(Form(const=15) - age, "<")}))
+        rep.check(recent, "AGE", fi.short, "returns without committing only while the last commit is recent", "path condition implies now - last_commit <= 15 s", f"in lazy mode a path returns without committing although nothing on it says the last commit is recent (path: {_path_text(ps)}): a buffered write can stay uncommitted for longer than about ten seconds", fi.loc(ps.stmts[-1]) if ps.stmts else fi.loc(), found=ps.describe())
+
+
 def check_conditional_commit(prog, rep):
     cls = prog.cls("SqliteStorage")
     fi = cls.methods.get("conditional_commit")
@@ -222,7 +323,7 @@ def check_conditional_commit(prog, rep):
     commits = {g.node_of(c) for c in self_calls(fi, "commit")}
     lazy = [n for n in g.nodes if n.kind == "branch" and norm(n.ast) == "self.enable_lazy_commit"]
     if len(lazy) != 1:
-        rep.undecided("COMMIT-C", fi.short, "lazy switch", "cannot find the single `if self.enable_lazy_commit` test", fi.loc())
+        rep.note("COMMIT-C: no single `if self.enable_lazy_commit` test; the structural sub-checks are skipped, the per-path rule decides")
         return None
     lz = lazy[0]
     t_succ = [v for v, lab in g.succ[lz.id] if lab and lab[2] is True]
@@ -314,8 +415,10 @@ def check_age_test(prog, rep):
     commits = {g.node_of(c) for c in self_calls(fi, "commit")}
     lazy = [n for n in g.nodes if n.kind == "branch" and norm(n.ast) == "self.enable_lazy_commit"]
     if len(lazy) != 1:
-        rep.undecided("AGE", fi.short, "lazy switch", "cannot find the single `if self.enable_lazy_commit` test", fi.loc())
+        rep.note("AGE: no single `if self.enable_lazy_commit` test; the structural sub-checks are skipped, the per-path rule decides")
+        check_age_paths(prog, rep)
         return
+    check_age_paths(prog, rep)
     lz = lazy[0]
     cands = [n for n in g.nodes if n.kind == "branch" and "last_commit" in _deep_text(n.ast, fi)]
     if not cands:
